@@ -35,18 +35,53 @@ Fixpoint paint (ls : list line) (idx total W H real : N) : list termop * N :=
         (pre ++ TStr (lt l) :: fill ++ ops, rf)
   end.
 
+(* the paint loop when the region shrank under Bottom alignment (shift > 0), after fix
+   "printed lines stay above the padding": the `shift` blank rows (write_line("")) are written
+   directly above the first Bar line that is painted; [padded] = they have been written already
+   (before the loop when the first line is a Bar line or there is no line at all) *)
+Fixpoint paint_pad (ls : list line) (idx total W H real shift : N) (padded : bool)
+  : list termop * N * bool :=
+  match ls with
+  | [] => ([], real, padded)
+  | l :: r =>
+      let h := wrapped_height l W in
+      if is_bar l && (H <? real + h) then ([], real, padded)
+      else
+        let pad := if is_bar l && negb padded then repeat (TLine []) (N.to_nat shift) else [] in
+        let padded' := padded || is_bar l in
+        let real' := if is_bar l then real + h else real in
+        let pre := if idx =? 0 then [] else [TLine []] in
+        let fill := if (idx + 1 =? total) || ((idx =? 0) && (lwidth l =? 0))
+                    then [TStr (spaces (h * W - lwidth l))] else [] in
+        let '(ops, rf, pf) := paint_pad r (idx + 1) total W H real' shift padded' in
+        (pad ++ pre ++ TStr (lt l) :: fill ++ ops, rf, pf)
+  end.
+
+Definition starts_with_text (ls : list line) : bool :=
+  match ls with
+  | l :: _ => negb (is_bar l)
+  | [] => false
+  end.
+
 (* [below]: DrawState::cursor_below (fix 'println/clear after an empty frame'): the previous draw
-   erased rows and drew nothing, the cursor is on the blank row below the remaining output *)
+   erased rows and drew nothing, the cursor is on the blank row below the remaining output.
+   When shift = 0 (always under Top alignment) this is the plain [paint] loop. *)
 Definition draw_to_term (ls : list line) (n : N) (al : alignment) (below : bool) (W H : N)
   : list termop * N * bool :=
   let full := visual_line_count ls W in
-  let shift := match al with
-               | Bottom => if full <? n then n - full else 0
-               | Top => 0
-               end in
-  let '(pops, real) := paint ls 0 (N.of_nat (length ls)) W H 0 in
+  let shift0 := match al with
+                | Bottom => if full <? n then n - full else 0
+                | Top => 0
+                end in
+  let '(pops, real, shift) :=
+    if shift0 =? 0 then let '(po, re) := paint ls 0 (N.of_nat (length ls)) W H 0 in (po, re, 0)
+    else
+      let padded0 := negb (starts_with_text ls) in
+      let '(po, re, pf) := paint_pad ls 0 (N.of_nat (length ls)) W H 0 shift0 padded0 in
+      ((if padded0 then repeat (TLine []) (N.to_nat shift0) else []) ++ po, re,
+       if pf then shift0 else 0) in
   let below' := if negb (shift =? 0) || negb (match ls with [] => true | _ => false end) then false
                 else if negb (n =? 0) then true else below in
   ((if below && (0 <? n) then [TUp 1] else [])
-     ++ clear_ops n ++ repeat (TLine []) (N.to_nat shift) ++ pops ++ [TFlush],
+     ++ clear_ops n ++ pops ++ [TFlush],
    real + shift, below').
